@@ -12,6 +12,12 @@ ENGINES = [
      "kind_free_text": "in-process simulated Kafka cluster (brokers, partition logs, group and transaction coordinators, "
                        "seeded fault plan) speaking the real wire protocol through the independent codecs vf/wire.py and "
                        "vf/refrecords.py; the real producer/consumer objects run on it unmodified in virtual time"},
+    {"name": "refrecords", "path": "vf/refrecords.py", "serves_properties": ["C09", "C10"],
+     "kind_free_text": "independent record-batch codec (v0/v1 message sets, v2 batches, varints, crc32/crc32c) + vf/extbuild.py, "
+                       "which rebuilds the Cython extension from the working tree (plain or AddressSanitizer)"},
+    {"name": "direct", "path": "vf/refmodels_direct.py", "serves_properties": ["C14", "C15", "C17", "C18"],
+     "kind_free_text": "direct calls of real library functions under contracts/oracles: assignment predicates, Java murmur2 "
+                       "transcription, RFC 5802 SCRAM server"},
     {"name": "wire", "path": "vf/wire.py", "serves_properties": ["C11"],
      "kind_free_text": "independent table-driven Kafka protocol codec (hand-written tables vf/wire_tables.py)"},
 ]
@@ -50,6 +56,51 @@ CHECKS = {
                       "markers on response boundaries) is consumed at read_committed and read_uncommitted; delivered records are "
                       "classified against the markers, exactness comes from the cursor oracle, final position must reach LSO/HW"),
                 note=SIM_NOTE + "; aborted-transaction index semantics of the simulated broker"),
+    "C09": dict(ready=True, engine="refrecords", level="exploration", design_ref="DESIGN.md §6 C09",
+                technique="runtime differential monitoring: compiled codec (rebuilt from the working tree) x pure-Python codec x "
+                          "independent reference codec/validator, plus size-accounting postconditions on the real builders",
+                text=("seeded record sequences (null/empty/boundary-sized keys, values, headers; decreasing timestamps; varint "
+                      "boundaries; magic 0/1/2; every codec; transactional / pid / epoch / sequence extremes; batch_size around the "
+                      "encoded size) are built by both library builders, every encoding is decoded by both library decoders and "
+                      "the reference decoder and validated field by field; mixed-magic concatenations with trailing partial "
+                      "batches go through both MemoryRecords implementations"),
+                note="trusted base: vf/refrecords.py (independent v0/v1/v2 codec, crc32c table, varints); byte identity between "
+                     "the two implementations is not demanded (compression policies differ)"),
+    "C14": dict(ready=True, engine="direct", level="exploration", design_ref="DESIGN.md §6 C14",
+                technique="runtime contracts (icontract ensure) on the three real assign() functions evaluating the statement's "
+                          "validity/balance predicates; termination monitor hooked on the sticky executor's move function",
+                text=("thorough: the complete bounded space of the quantifier (<=4 members x <=3 topics x {no metadata, 0..4 "
+                      "partitions} x every non-empty subscription = 609,144 inputs, coverage.exhaustive=true) under range, "
+                      "roundrobin, sticky fresh and sticky with user data through the real encoding; plus random chains beyond "
+                      "the bounds (<=12 members, 8 topics, 12 partitions; stale, conflicting and garbage user data); quick: the "
+                      "<=3x2 sub-space exhaustively + 18k random chains"),
+                note="trusted base: predicates in vf/refmodels_direct.py written from the statement; non-termination is decided "
+                     "on a logical move count (2000+4P^2), not on wall-clock time; one known finding (sticky ping-pong)"),
+    "C15": dict(ready=True, engine="direct", level="exploration", design_ref="DESIGN.md §6 C15",
+                technique="runtime monitoring: two-round stickiness oracle over consecutive real assign() results, previous "
+                          "assignments carried through the real user-data encoding (metadata()/parse_member_metadata())",
+                text=("every first-round input of C14's bounded space followed by (a) an identical round, (b) removal of every "
+                      "non-empty proper subset of members, (c) +1/+2 members; random chains of <=5 rounds incl. a member reporting "
+                      "a stale generation; partition-by-partition comparison of owner maps between consecutive results"),
+                note="trusted base: owner-map comparison in vf/refmodels_direct.py; rounds with non-identical subscriptions are "
+                     "executed but not judged for (b)/(c) (the statement gives them no guarantee)"),
+    "C17": dict(ready=True, engine="direct", level="exploration", design_ref="DESIGN.md §6 C17",
+                technique="runtime differential monitoring: real DefaultPartitioner / AIOKafkaProducer._partition vs. an int32 "
+                          "transcription of the Java murmur2 + toPositive + modulo, anchored on Java-computed literals",
+                text=("every key of length 0..2 (65,793), every short key over {00,7F,80,FF} for all tail lengths, up to 208k "
+                      "random keys <=4 KiB; partition counts 1..1000, non-contiguous partition ids, every availability subset for "
+                      "small counts; unkeyed records must land in `available` when non-empty"),
+                note="trusted base: vf/refmodels_direct.java_partition (self-checked against the six literals of "
+                     "tests/test_partitioner.py before every run; failing anchors make the run inconclusive)"),
+    "C18": dict(ready=True, engine="direct", level="exploration", design_ref="DESIGN.md §6 C18",
+                technique="runtime monitoring: the real ScramAuthenticator driven message by message against an independent RFC 5802 "
+                          "server in honest / in-flight tampering / impostor modes",
+                text=("seeded parameter sets (SHA-256/512, usernames with ',' '=' and non-ASCII, salts 1..64 bytes, iteration "
+                      "counts 1..20000); per set: one honest exchange (server verifies header, username escaping, nonce, proof), "
+                      "every single-field tampering of both server messages (nonce, salt, iterations, every signature byte) and "
+                      "impostor guesses of v= ; the client must never complete in the last two kinds"),
+                note="trusted base: vf/refmodels_direct.ScramServer built from hashlib/hmac; only the uuid4 nonce source is "
+                     "rebound (seeded)"),
     "C11": dict(ready=True, engine="wire", level="exploration", design_ref="DESIGN.md §6 C11",
                 technique="runtime differential monitoring: library encode/decode vs. an independent table-driven Kafka codec; "
                           "postconditions on Request.prepare() and on the request builders",
